@@ -41,10 +41,16 @@ CONSTANTS
     SelfDepPanics, \* TRUE: pinned behaviour, add_dep asserts self.id != src.id (exit 101)
     Links,      \* [link name -> Seq(names)]: sources that are symbolic links, and what the user may point them to
                 \* (initially the first; the pointees are sources that are never removed)
+    Alias,      \* [spelling -> name]: other spellings (./a, d/../a, ...) of files, as they may appear on command lines
+                \* and in scripts; every spelling of a file is that file (one record, one lock, one build)
     NameSeq     \* all file names in the order of SQL `order by name` (TLC cannot compare strings)
 
 Files == Plain \cup DoFiles
 Names == Files \cup {ALWAYS}
+
+\* state.rs:388-404, 1284-1418: names are cleaned, resolved and stored relative to the project base
+Norm(x) == IF x \in DOMAIN Alias THEN Alias[x] ELSE x
+NormSeq(q) == [i \in 1..Len(q) |-> Norm(q[i])]
 
 VARIABLES
     fs,      \* [Files -> [ex, val, ver, own]]
@@ -251,7 +257,7 @@ StartBuild(c) ==
     /\ procs' = Spawn(procs, Top,
                       [ProcDefaults EXCEPT !.kind = "redo", !.pc = "pass1", !.rid = runid + 1,
                                            !.forced = (c.kind = "redo"), !.keep = c.keep,
-                                           !.targs = c.targs, !.tok = 1])
+                                           !.targs = NormSeq(c.targs), !.tok = 1])
     \* only `redo -jN` creates more than one token; redo-ifchange at top level runs -j1
     /\ pool' = IF c.kind = "redo" THEN c.j - 1 ELSE 0
     /\ gh' = [gh EXCEPT !.fails = {}, !.codes = {}, !.crashNow = FALSE, !.inner = {}]
@@ -563,7 +569,7 @@ Finish(p) ==
 (***************************************************************************)
 (* .do scripts (sh -e)                                                     *)
 (***************************************************************************)
-OpsOf(S) == Rules[S.df][S.dv][S.t]
+OpsOf(S) == LET ops == Rules[S.df][S.dv][S.t] IN [i \in 1..Len(ops) |-> [ops[i] EXCEPT !.args = NormSeq(@)]]
 
 SubRedo(S, s, targs, unl, oob, tgt, cyc) ==
     [ProcDefaults EXCEPT !.kind = "redo", !.par = s, !.pc = "declare", !.rid = S.rid,
